@@ -304,6 +304,27 @@ def _key(x):
     return x
 
 
+# ---------------------------------------------------------------- the check's own stdout
+_VERDICT_OUT = [None]
+
+
+def protect_stdout():
+    """everything the library (or a worker process) prints goes to stderr; only the check's verdict lines reach stdout"""
+    sys.stdout.flush()
+    _VERDICT_OUT[0] = os.fdopen(os.dup(1), "w")
+    os.dup2(2, 1)
+
+
+def verdict_print(line):
+    o = _VERDICT_OUT[0]
+    if o is None:
+        print(line)
+        sys.stdout.flush()
+    else:
+        o.write(line + "\n")
+        o.flush()
+
+
 # ---------------------------------------------------------------- misc
 def sha(obj_):
     return hashlib.sha1(json.dumps(obj_, sort_keys=True, default=str).encode()).hexdigest()[:12]
